@@ -252,6 +252,10 @@ Definition sort_of (s : fifsort) : cifsort :=
 Section Translation.
   Variable codata : list ctydecl.     (* CompileState.codata_types *)
   Variable cur : string.              (* CompileState.current_label *)
+  (* [true]: the goto translation as it was BEFORE fix commit 126604b of /repo (target covariable typed
+     with the goto expression's own annotation) - kept only for the regression lemma
+     fun2core_goto_unbound_before_fix; [false]: the current code (type of the goto's argument) *)
+  Variable goto_legacy : bool.
 
   (* compile.rs: share *)
   Definition arg_of_binding (b : cbinding) : carg :=
@@ -373,8 +377,8 @@ Section Translation.
     dom p <- cmp_new ccls ty;
     mret (CCut p (compile_ty ty') cont).
   (* terms/goto.rs *)
-  Definition wc_goto (l : fname) (wterm : cterm -> M cstmt) (ty : option fty) : M cstmt :=
-    dom ty <- mlift (expect_ty ty);
+  Definition wc_goto (l : fname) (wterm : cterm -> M cstmt) (ty : option fty) (term_ty : option fty) : M cstmt :=
+    dom ty <- mlift (expect_ty (if goto_legacy then ty else term_ty));
     wterm (CXVar CCns (new_id l) (compile_ty ty)).
   (* terms/label.rs *)
   Definition cmp_label (l : fname) (wterm : cterm -> M cstmt) (ty : option fty) : M cterm :=
@@ -445,7 +449,7 @@ Section Translation.
         wc_case (wc scrut) (fterm_type scrut) (List.length cls) (fun cont' => clauses_with (fun b => wc b) cont' cls) cont
     | FNew cls ty => wc_new (coclauses_with (fun b => wc b) cls) ty cont
     | FLabel l t' ty => wc_label l (wc t') ty cont
-    | FGoto l t' ty => wc_goto l (wc t') ty
+    | FGoto l t' ty => wc_goto l (wc t') ty (fterm_type t')
     | FExit a ty => wc_exit (cmp a CI64) ty
     | FParen t' => wc t' cont
     end
@@ -468,7 +472,7 @@ Section Translation.
           (wc_case (wc scrut) (fterm_type scrut) (List.length cls) (fun cont' => clauses_with (fun b => wc b) cont' cls)) ty
     | FNew cls nty => cmp_new (coclauses_with (fun b => wc b) cls) nty
     | FLabel l t' lty => cmp_label l (wc t') lty
-    | FGoto l t' gty => default_compile (fun _ => wc_goto l (wc t') gty) ty
+    | FGoto l t' gty => default_compile (fun _ => wc_goto l (wc t') gty (fterm_type t')) ty
     | FExit a ety => default_compile (fun _ => wc_exit (cmp a CI64) ety) ty
     | FParen t' => cmp t' ty
     end.
@@ -483,23 +487,23 @@ Definition run_def_body {X} (codata : list ctydecl) (d : fdef) (used_labels : li
   end.
 
 (* result: the definition followed by its lifted statements (most recent first), and used_labels *)
-Definition compile_def (d : fdef) (codata : list ctydecl) (used_labels : list string)
+Definition compile_def (lg : bool) (d : fdef) (codata : list ctydecl) (used_labels : list string)
   : res (list cdef * list string) :=
   let context := compile_ctx (fdctx d) in
   dor r <- run_def_body codata d used_labels
              (fun ty => dom a <- fresh_covar;
-                        dom body <- wc codata (fdname d) (fdbody d) (CXVar CCns (new_id a) ty);
+                        dom body <- wc codata (fdname d) lg (fdbody d) (CXVar CCns (new_id a) ty);
                         mret (a, body));
   let '((a, body), st) := r in
   let context := context ++ [mkcb (new_id a) CCns (compile_ty (fdret d))] in
   Ok (mkcd (new_id (fdname d)) context body :: st_lifted st, st_used_labels st).
 
-Definition compile_main (d : fdef) (codata : list ctydecl) (used_labels : list string)
+Definition compile_main (lg : bool) (d : fdef) (codata : list ctydecl) (used_labels : list string)
   : res (list cdef * list string) :=
   let context := compile_ctx (fdctx d) in
   dor r <- run_def_body codata d used_labels
              (fun ty => dom x <- fresh_var;
-                        wc codata (fdname d) (fdbody d)
+                        wc codata (fdname d) lg (fdbody d)
                            (CMu CCns (new_id x) (CExit (CXVar CPrd (new_id x) ty) ty) ty));
   let '(body, st) := r in
   Ok (mkcd (new_id (fdname d)) context body :: st_lifted st, st_used_labels st).
@@ -509,25 +513,28 @@ Definition compile_data (d : fdata) : ctydecl := mkct CData (new_id (fdaname d))
 Definition compile_codata (d : fcodata) : ctydecl := mkct CCodata (new_id (fcoaname d)) (map compile_dtor (fcodtors d)).
 
 (* front = definitions moved to the front (main groups), back = the others, reversed groups *)
-Fixpoint compile_defs (defs : list fdef) (codata : list ctydecl) (used_labels : list string)
+Fixpoint compile_defs (lg : bool) (defs : list fdef) (codata : list ctydecl) (used_labels : list string)
          (front : list cdef) (back_rev : list cdef) : res (list cdef) :=
   match defs with
   | [] => Ok (front ++ rev_append back_rev [])
   | d :: r =>
       if String.eqb (fdname d) "main" then
-        dor g <- compile_main d codata used_labels;
-        compile_defs r codata (snd g) (fst g ++ front) back_rev
+        dor g <- compile_main lg d codata used_labels;
+        compile_defs lg r codata (snd g) (fst g ++ front) back_rev
       else
-        dor g <- compile_def d codata used_labels;
-        compile_defs r codata (snd g) front (rev_append (fst g) back_rev)
+        dor g <- compile_def lg d codata used_labels;
+        compile_defs lg r codata (snd g) front (rev_append (fst g) back_rev)
   end.
 
-Definition compile_prog (p : fcprog) : res cprog :=
+Definition compile_prog_gen (lg : bool) (p : fcprog) : res cprog :=
   let data_types := map compile_data (fcpdata p) in
   let codata_types := map compile_codata (fcpcodata p) in
   let used_labels := map fdname (fcpdefs p) in
-  dor defs <- compile_defs (fcpdefs p) codata_types used_labels [] [];
+  dor defs <- compile_defs lg (fcpdefs p) codata_types used_labels [] [];
   Ok (mkcp defs data_types codata_types 0).
+(* the current translation, and the one before fix 126604b (regression lemma only) *)
+Definition compile_prog (p : fcprog) : res cprog := compile_prog_gen false p.
+Definition compile_prog_before_fix (p : fcprog) : res cprog := compile_prog_gen true p.
 
 (* ======================================================================================
    Predicates on Fun programs used by the executable check and by the theorems (not models of
@@ -817,3 +824,58 @@ Definition capture_witness : fcprog :=
           (FCall "f" [FLit 5; FCtor "Cons" [FLit 7; FCtor "Nil" [] (Some ty_list_i64)] (Some ty_list_i64)] (Some FI64))
           (FLit 0) (Some FI64))].
 
+
+(* ---------- the first-order integer fragment of the theorem fun2core_correct_partial ----------
+   [iexp]: literals, i64 variables, operators, parentheses.  [islf]: non-codata `let` of an
+   expression, print, exit, conditionals on expressions, parentheses, expressions. *)
+Fixpoint iexp (t : fterm) : bool :=
+  match t with
+  | FLit _ => true
+  | FVar _ (Some FI64) _ => true
+  | FOp a _ b => iexp a && iexp b
+  | FParen t' => iexp t'
+  | _ => false
+  end.
+Fixpoint islf (t : fterm) : bool :=
+  match t with
+  | FLet _ FI64 bound body _ => iexp bound && islf body
+  | FPrint _ a next _ => iexp a && islf next
+  | FExit a (Some _) => iexp a
+  | FIfC _ a b t1 t2 _ =>
+      iexp a && (match b with Some b' => iexp b' | None => true end) && islf t1 && islf t2
+  | FParen t' => islf t'
+  | _ => iexp t
+  end.
+
+Definition main_in_fragment (p : fcprog) : bool :=
+  match find (fun d => String.eqb (fdname d) "main") (fcpdefs p) with
+  | Some d => islf (fdbody d) && nodup_str (map fdname (fcpdefs p))
+  | None => false
+  end.
+
+(* ---------- the witness of the second defect class (corpus/fun/c02_unbound_covar.sc as the type
+   checker annotates it; tied to the real CheckedProgram by modelrun like capture_witness) ---------- *)
+Definition ty_box : fty := FDecl "Box" [].
+Definition cl_data (x : string) (ctx : fctx) (body : fterm) : fclause := FClause FData x (fvars ctx) ctx body.
+Definition goto_witness : fcprog :=
+  mkfcprog
+    [mkfdata "Box" [] [mkfctor "A" [mkfb "v" FPrd FI64]; mkfctor "E" [mkfb "k" FCns FI64]]]
+    []
+    [mkfdef "h" [mkfb "b" FPrd ty_box] ty_box
+       (FCase
+          (FParen
+             (FCase (v_prd "b" ty_box) []
+                [cl_data "A" [mkfb "v" FPrd FI64] (FCtor "A" [FOp (v_prd "v" FI64) FSum (FLit 1)] (Some ty_box));
+                 cl_data "E" [mkfb "j" FCns FI64] (FCtor "A" [FLit 0] (Some ty_box))]
+                (Some ty_box)))
+          []
+          [cl_data "A" [mkfb "v" FPrd FI64] (FCtor "A" [FOp (v_prd "v" FI64) FSum (FLit 2)] (Some ty_box));
+           cl_data "E" [mkfb "k" FCns FI64] (FGoto "k" (FLit 3) (Some ty_box))]
+          (Some ty_box));
+     mkfdef "main" [] FI64
+       (FPrint true
+          (FCase (FCall "h" [FCtor "A" [FLit 1] (Some ty_box)] (Some ty_box)) []
+             [cl_data "A" [mkfb "v" FPrd FI64] (v_prd "v" FI64);
+              cl_data "E" [mkfb "k" FCns FI64] (FLit 0)]
+             (Some FI64))
+          (FLit 0) (Some FI64))].
